@@ -604,6 +604,7 @@ def run(ctx):
     joinlogic.join_logical_state(ctx, r12)
     joinlogic.induced_join_state(ctx, r12)
     joinlogic.possible_route(ctx, r12)
+    joinlogic.route_cache_covers_inbound(ctx, r12)
     c04.cache_rule(ctx, r12)
     c04.reverse_rules(ctx, r12)
     c04.reverse_graph(ctx, r12)
